@@ -184,8 +184,8 @@ static unsigned long n_oct_special, n_after_poison;
 int main(int argc, char **argv)
 {
 	vh_args_t a;
-	static const char *SPECS_Q[] = { "rsa:2048", "rsa:2047", "rsa:2041", "rsa:3072", "ec:P-256", "ec:P-384", "ec:P-521", "ec:secp256k1", "okp:Ed25519", "okp:Ed448", "oct" };
-	static const char *SPECS_T[] = { "rsa:2048", "rsa:2047", "rsa:2041", "rsa:2049", "rsa:2050", "rsa:1024", "rsa:3072", "rsa:4096", "ec:P-256", "ec:P-384", "ec:P-521", "ec:secp256k1", "okp:Ed25519", "okp:Ed448", "oct", "oct" };
+	static const char *SPECS_Q[] = { "rsa:2048", "rsa:2047", "rsa:2041", "rsa:3072", "ec:P-256", "ec:P-384", "ec:P-521", "ec:secp256k1", "okp:Ed25519", "okp:Ed448", "oct", "ec:sect571r1", "ec:brainpoolP512r1" };
+	static const char *SPECS_T[] = { "rsa:2048", "rsa:2047", "rsa:2041", "rsa:2049", "rsa:2050", "rsa:1024", "rsa:3072", "rsa:4096", "ec:P-256", "ec:P-384", "ec:P-521", "ec:secp256k1", "okp:Ed25519", "okp:Ed448", "oct", "oct", "ec:sect571r1", "ec:sect571k1", "ec:brainpoolP512r1", "ec:sect409r1", "ec:secp224r1" };
 	unsigned long nchecked = 0;
 	vh_parse_args(argc, argv, &a);
 	for (long idx = 0; idx < a.n; idx++) {
